@@ -17,7 +17,7 @@ from .props import PROPS
 VERIF = os.path.dirname(os.path.dirname(os.path.abspath(__file__)))
 REPO = os.environ.get('VERIF_REPO', '/repo')
 EVID = os.path.join(VERIF, 'evidence')
-REPLAYS = os.path.join(VERIF, 'replays')
+REPLAYS = os.environ.get('VERIF_REPLAYS_DIR') or os.path.join(VERIF, 'replays')
 KNOWN = os.path.join(VERIF, 'known_findings.txt')
 
 
@@ -388,7 +388,7 @@ def check(prop, tier, seed, legs=('verus', 'kani'), keep=False, only=None):
             if v['leg'] == 'rustc':
                 cands, scratch, feats = [], '', ''
             elif v['leg'] == 'kani':
-                cands = [(v['harness'], v['obligation'][:60])]
+                cands = [(v['harness'], v['obligation'][:60] if v['obligation'].startswith('[') else '')]
                 scratch = kp['scratch']
                 feats = next((e.get('features', '') for e in HARNESSES if e['fn'] == v['function']), '')
             else:
